@@ -147,7 +147,7 @@ func raceViolation(p *Prop, racesBefore int, logBefore int64, out *Outcome) bool
 	if simrt.RaceErrors() <= racesBefore {
 		return false
 	}
-	cls, detail := raceReport(logBefore)
+	cls, detail := raceReport(logBefore, p.RaceStackPkg)
 	if cls == "" {
 		return false
 	}
